@@ -458,6 +458,8 @@ pub fn gen_c01(seed: u64, thorough: bool) -> Vec<CaseSpec> {
         (Scheme::Rs, 255, 1, 10, false),
         (Scheme::Rs, 200, 55, 200, true),
         (Scheme::Rs, 200, 56, 3, false),
+        (Scheme::RsUs, 65534, 1, 100, true),
+        (Scheme::RsUs, 65535, 1, 100, false),
     ] {
         let mut sp = SessP::default();
         sp.oti = OtiP { sch: Scheme::Rs, e: 1024, b: 8, p: 1, ifti: true };
@@ -564,6 +566,9 @@ pub fn gen_c01(seed: u64, thorough: bool) -> Vec<CaseSpec> {
         sp.sgrp = rng.chance(1, 5);
         if rng.chance(1, 4) {
             sp.toi0 = *rng.pick(&TOI0S);
+        }
+        if rng.chance(1, 5) {
+            sp.fid0 = *rng.pick(&[0xFFFFCu32, 0xFFFFE, 0xFFFFF, 0xFFFF0, 0]);
         }
         if rng.chance(1, 5) {
             sp.dt = 1000;
@@ -756,6 +761,9 @@ pub fn gen_c02(seed: u64, thorough: bool) -> Vec<CaseSpec> {
                 if rng.chance(1, 4) {
                     sp.toi0 = *rng.pick(&TOI0S);
                 }
+                if rng.chance(1, 4) {
+                    sp.fid0 = *rng.pick(&[0xFFFFCu32, 0xFFFFE, 0xFFFFF]);
+                }
                 let nobj = 1 + rng.below(3);
                 for _ in 0..nobj {
                     let mut ob = ObjP::default();
@@ -842,6 +850,9 @@ pub fn gen_c02(seed: u64, thorough: bool) -> Vec<CaseSpec> {
                 sp.full = false;
                 sp.mux = vec![1];
                 sp.ro = ifti;
+                if nobj == 3 {
+                    sp.fid0 = 0xFFFFE;
+                }
                 for j in 0..nobj {
                     let mut ob = ObjP::default();
                     ob.oti = Some(OtiP { sch, e: 4, b: 3, p: if sch == Scheme::NoCode { 0 } else { 1 }, ifti });
@@ -903,6 +914,15 @@ pub fn gen_c16(seed: u64, thorough: bool) -> Vec<CaseSpec> {
                         // still be attached when the FDT completes, whatever the width of its TOI)
                         if n % 3 == 1 {
                             sp.toi0 = TOI0S[(n / 3) % TOI0S.len()];
+                        }
+                        // FDT Instance IDs across the 20-bit wrap (the newest instance is not the one with the highest id)
+                        // (both publish modes: n % 8 in {1, 2}; in ObjectsBeingTransferred mode one queue slot so that
+                        // the objects - and their FDT instances - follow each other)
+                        if n % 8 == 1 || n % 8 == 2 {
+                            sp.fid0 = [0xFFFFCu32, 0xFFFFE, 0xFFFFF, 0xFFFFD][(n / 8) % 4];
+                            if !full {
+                                sp.mux = vec![1];
+                            }
                         }
                         for j in 0..nobj {
                             let mut ob = ObjP::default();
